@@ -45,6 +45,10 @@ func main() {
 		h.GenConvMix(rng, n, emit)
 	case "reply":
 		h.GenReply(rng, thorough, emit)
+	case "lmtp":
+		h.GenLmtp(rng, thorough, emit)
+	case "c12":
+		h.GenC12(rng, thorough, emit)
 	case "tls":
 		h.GenTLS(rng, thorough, emit)
 	case "c02":
